@@ -52,7 +52,12 @@ def monitor(world):
         if e['kind'] == 'queue':
             f = e['f']
             key = (e['ep'], f.get('sid', 0))
-            fifo.setdefault(key, []).append(f)
+            if e.get('priority'):
+                fifo.setdefault(key, []).insert(0, f)      # a priority frame goes ahead of everything queued
+                st['priority_inserts_into_nonempty_queue'] = st.get('priority_inserts_into_nonempty_queue', 0) + \
+                    (1 if any(v for k2, v in fifo.items() if k2[0] == e['ep'] and (k2 != key or len(v) > 1)) else 0)
+            else:
+                fifo.setdefault(key, []).append(f)
             if key in run:
                 st['frames_behind_unfinished_run'] += 1
             continue
@@ -202,15 +207,32 @@ def gen_case(rng, tier):
             iid += 1
     if not specs:
         return gen_case(rng, tier)
+    if rng.random() < 0.3:
+        # send_priority_frame called while the queue is not empty (the library itself only does so for SETUP)
+        cfg['priority_inserts'] = [(rng.choice('cs'), mixgen.draw_wait(rng)) for _ in range(rng.choice([1, 2, 4]))]
     return cfg, specs
 
 
 async def _run(rng, cfg, specs):
+    import asyncio
     from ..pair import Pair
+    from ..apps import _pace
     p = Pair(rng, cfg)
     p.driver.horizon = 1.0e5
     await p.start()
+
+    async def injector():
+        from rsocket.frame import KeepAliveFrame
+        for i, (side, wait) in enumerate(cfg.get('priority_inserts', ())):
+            await _pace(tuple(wait))
+            f = KeepAliveFrame()
+            f.flags_respond = False
+            f.data = b'priority-%d' % i
+            p.ep(side).send_priority_frame(f)
+
+    inj = asyncio.ensure_future(injector())
     await p.run_specs(specs)
+    inj.cancel()
     await p.close()
     return p
 
@@ -225,6 +247,8 @@ def run_case(gen, idx, rng, tier):
     world = p.world
     wit, st = monitor(world)
     desc = {'config': mixgen.describe_cfg(cfg), 'interactions': specs}
+    if cfg.get('priority_inserts'):
+        desc['config']['priority_inserts'] = [list(x) for x in cfg['priority_inserts']]
     for w in wit:
         w['detail']['config'] = desc['config']
         sid = w['detail']['stream']
@@ -239,7 +263,8 @@ def run_case(gen, idx, rng, tier):
     nontrivial = st['frames_behind_unfinished_run'] > 0
     ev = {'wire_frames': sum(1 for e in world.events if e['kind'] == 'wire'),
           'queue_events': sum(1 for e in world.events if e['kind'] == 'queue'),
-          'other_streams_interleaved_in_runs': st.pop('other_streams_interleaved_in_runs')}
+          'other_streams_interleaved_in_runs': st.pop('other_streams_interleaved_in_runs'),
+          'priority_inserts_into_nonempty_queue': st.pop('priority_inserts_into_nonempty_queue', 0)}
     seen = set()
     ws = []
     for w in wit:
